@@ -199,11 +199,11 @@ def suiteTasks (P : Proj) (parent : Path) (inh : Bool) (parentBegin : Option Tas
     let testTs : List TaskSpec := tests.map (fun t =>
       { id := ⟨.test, p ++ [t.name]⟩, succ := testDep :: t.deps.map (fun dp => ⟨.test, dp⟩), compl := [] })
     let testIds := testTs.map (·.id)
-    let tdT : List TaskSpec := if init? then [{ id := ⟨.teardown, p⟩, succ := [], compl := testIds }] else []
+    let tdT : List TaskSpec := if init? then [{ id := ⟨.teardown, p⟩, succ := [], compl := initId :: testIds }] else []
     let subTs := suitesTasks P p (inh || d) (some beginId) subs
     let subEnds : List TaskId := subs.map (fun s => ⟨.end_, p ++ [s.name]⟩)
     let endT : TaskSpec :=
-      { id := ⟨.end_, p⟩, succ := testIds ++ (if init? then [⟨.teardown, p⟩] else []) ++ subEnds, compl := [] }
+      { id := ⟨.end_, p⟩, succ := beginId :: testIds ++ (if init? then [⟨.teardown, p⟩] else []) ++ subEnds, compl := [] }
     [beginT] ++ initT ++ testTs ++ tdT ++ subTs ++ [endT]
 def suitesTasks (P : Proj) (parent : Path) (inh : Bool) (parentBegin : Option TaskId) : List SuiteSpec → List TaskSpec
   | [] => []
@@ -273,10 +273,13 @@ structure TS where
   abortedSuites : List (Option Path)    -- `_aborted_suites.add(suite)` (None when called without suite)
   abortAll : Bool
   err : Option String         -- the model reached a state the real code would crash in (assertion/lookup)
+  ptLog : List (Nat × (InstKey × String × Nat))   -- per-thread objects created: (items emitted by then, object)
+  lookups : Nat := 0          -- `get_fixture_result` calls so far
+  failLookupsFrom : Option Nat := none   -- D11: results deleted under an in-flight task: lookups ≥ this index assert
 
 instance : Inhabited TS :=
   ⟨{ sess := Session.St.init, out := #[], acts := 0, cut := none, nextChild := 1, insts := Insts.empty,
-     abortedSuites := [], abortAll := false, err := none }⟩
+     abortedSuites := [], abortAll := false, err := none, ptLog := [] }⟩
 
 abbrev M := StateM TS
 
@@ -332,8 +335,8 @@ def execActs (fuel : Nat) (role : Nat) (u : UnitId) (i : Nat) : List Act → M (
           sop c .threadRun
           let r ← execScript fuel c (.th u i) inner
           if r.isSome then
-            -- `Thread.run`: `except Exception: log_error(...)` through the public API
-            let _ ← apiAct c (.log .error "")
+            -- `Thread.run`: `except Exception: self._session.log_error(...)` (the session method: no interrupt check)
+            sop c (.log .error "")
           sop c .threadEnd
           pure none)
       match r with
@@ -389,6 +392,11 @@ def instFixtures (P : Proj) (svs : List SuiteView) : InstKey → List String
     executed by worker `w`.  A per-thread fixture creates its object lazily here — user code. -/
 def getFixtureResult (P : Proj) (svs : List SuiteView) (w : Nat) (k : InstKey) (suite : Path) (name : String) :
     M (Option ExcKind) := do
+  let idx := (← get).lookups
+  modify fun ts => { ts with lookups := idx + 1 }
+  match (← get).failLookupsFrom with
+  | some j => if j ≤ idx then return some .exc
+  | none => pure ()
   let chain := instChain k suite
   match chain.find? (fun ik => (instFixtures P svs ik).contains name) with
   | none => do modelErr s!"LookupError: fixture {name}"; return none
@@ -404,7 +412,8 @@ def getFixtureResult (P : Proj) (svs : List SuiteView) (w : Nat) (k : InstKey) (
             -- `setup_object` → `_build_fixture_result_from_func`: the fixture function runs now
             let r ← runUnit (.fx f.func false) f.setup
             if r.isNone then
-              modify fun ts => { ts with insts := { ts.insts with ptObjects := ts.insts.ptObjects ++ [(ik, name, w)] } }
+              modify fun ts => { ts with insts := { ts.insts with ptObjects := ts.insts.ptObjects ++ [(ik, name, w)] },
+                                         ptLog := ts.ptLog ++ [(ts.out.size, (ik, name, w))] }
             return r
         else return none
 
@@ -441,17 +450,18 @@ def teardownFixture (P : Proj) (k : InstKey) (name : String) : M (Option ExcKind
     if !(← get).insts.has k name then do modelErr s!"AssertionError: fixture {name} not executed"; return none
     else
       let r ← (if f.perThread then do
-          -- `teardown_factory`: every created object, oldest first; an exception stops the loop
+          -- `teardown_factory`: every created object, oldest first; a failing teardown does not stop the loop,
+          -- the first exception is re-raised once all objects have been torn down
           let objs := (← get).insts.ptObjects.filter (fun x => x.1 == k && x.2.1 == name)
-          let rec go : List (InstKey × String × Nat) → M (Option ExcKind)
-            | [] => return none
+          let rec go (first : Option ExcKind) : List (InstKey × String × Nat) → M (Option ExcKind)
+            | [] => return first
             | _ :: rest => do
               if f.gen then
                 match ← runUnit (.fx f.func true) f.teardown with
-                | some e => return some e
-                | none => go rest
-              else go rest
-          go objs
+                | some e => go (if first.isSome then first else some e) rest
+                | none => go first rest
+              else go first rest
+          go none objs
         else if f.gen then runUnit (.fx f.func true) f.teardown
         else pure none)
       if r.isNone then modify fun ts => { ts with insts := ts.insts.del k name }
@@ -475,16 +485,16 @@ def runSetupFn (P : Proj) (svs : List SuiteView) (w : Nat) (suite : Path) : Setu
   | .setupTest sc t => runUnit (.hook suite "setup_test" (some t)) sc
 
 /-- `RunContext.run_setup_funcs(funcs, location)` -/
-def runSetupFuncs (P : Proj) (svs : List SuiteView) (w : Nat) (suite : Path) (loc : Loc) :
+def runSetupFuncs (P : Proj) (svs : List SuiteView) (w : Nat) (suite : Path) (loc : Loc) (hs : Option Path) :
     List (Option SetupFn × Td) → List Td → M (List Td)
   | [], acc => return acc
-  | (none, td) :: rest, acc => runSetupFuncs P svs w suite loc rest (acc ++ [td])
+  | (none, td) :: rest, acc => runSetupFuncs P svs w suite loc hs rest (acc ++ [td])
   | (some fn, td) :: rest, acc => do
     match ← runSetupFn P svs w suite fn with
-    | some e => do handleException e none false; return acc
+    | some e => do handleException e hs hs.isSome; return acc
     | none =>
       if !(← isOk loc) then return acc
-      else runSetupFuncs P svs w suite loc rest (acc ++ [td])
+      else runSetupFuncs P svs w suite loc hs rest (acc ++ [td])
 
 def runTd (P : Proj) (svs : List SuiteView) (loc : Loc) : Td → M (Option ExcKind)
   | .fixture k n => teardownFixture P k n
@@ -501,11 +511,11 @@ def runTd (P : Proj) (svs : List SuiteView) (loc : Loc) : Td → M (Option ExcKi
   | .none_ => pure none
 
 /-- `RunContext.run_teardown_funcs(teardown_funcs)`: reversed, `None`s skipped, exceptions survive -/
-def runTeardownFuncs (P : Proj) (svs : List SuiteView) (loc : Loc) (tds : List Td) : M Unit := do
+def runTeardownFuncs (P : Proj) (svs : List SuiteView) (loc : Loc) (hs : Option Path) (tds : List Td) : M Unit := do
   for td in tds.reverse do
     if td != .none_ then
       match ← runTd P svs loc td with
-      | some e => handleException e none false
+      | some e => handleException e hs hs.isSome
       | none => pure ()
 
 def mdOf (name : String) (rank : Nat) : Meta :=
@@ -529,6 +539,7 @@ structure TaskOut where
   res : ResClass
   eff : Effects
   err : Option String
+  ptLog : List (Nat × (InstKey × String × Nat))
 deriving Repr, Inhabited
 
 def phaseProgram (P : Proj) (svs : List SuiteView) (w : Nat) (suite : Path) (loc : Loc)
@@ -536,7 +547,7 @@ def phaseProgram (P : Proj) (svs : List SuiteView) (w : Nat) (suite : Path) (loc
   if pairs.any (fun p => p.1.isSome) then
     sop 0 startOp
     sop 0 (.setStep stepName)
-    let kept ← runSetupFuncs P svs w suite loc pairs []
+    let kept ← runSetupFuncs P svs w suite loc none pairs []
     sop 0 endOp
     return (kept, !(← isOk loc))
   else
@@ -547,7 +558,7 @@ def teardownProgram (P : Proj) (svs : List SuiteView) (loc : Loc)
   if kept.any (· != .none_) then
     sop 0 startOp
     sop 0 (.setStep stepName)
-    runTeardownFuncs P svs loc kept
+    runTeardownFuncs P svs loc none kept
     sop 0 endOp
 
 /-- the whole behaviour of one task.  `run = true`: `task.run(context)`, `false`: `task.skip(context, reason)`;
@@ -614,35 +625,35 @@ def taskProgram (P : Proj) (svs : List SuiteView) (w : Nat) (t : TaskId) (run : 
           let fxPairs := (testFixtures P ts).map (fun n => (some (SetupFn.fixture (.test t.path) n), Td.fixture (.test t.path) n))
           let pairs := hookPair :: fxPairs
           sop 0 (.setStep "Setup test")
-          let kept ← (if pairs.any (fun p => p.1.isSome) then runSetupFuncs P svs w suite loc pairs []
+          let kept ← (if pairs.any (fun p => p.1.isSome) then runSetupFuncs P svs w suite loc (some suite) pairs []
                       else pure (pairs.filterMap (fun p => if p.2 == .none_ then none else some p.2)))
-          let mut crashed := false
           if (← isOk loc) then
-            -- `_prepare_test_args`: outside any try (a raising per-thread fixture crashes the task: D3)
+            -- `_prepare_test_args` (a per-thread fixture is evaluated at its first use by the thread: here) and
+            -- the body are guarded together; the body runs only if the test is still successful
             match ← lookupAll P svs w (.test t.path) suite ts.fixtures with
-            | some _ => crashed := true
+            | some e => handleException e (some suite) true
             | none =>
-              sop 0 (.setStep "")         -- set_step(test.description); descriptions are blank in the model
-              match ← runUnit (.body t.path) ts.script with
-              | some e => handleException e (some suite) true
-              | none => pure ()
-          if crashed then return (.exception, [])
+              if (← isOk loc) then
+                sop 0 (.setStep ("test " ++ ts.name))   -- set_step(test.description); the harness names it "test <name>"
+                match ← runUnit (.body t.path) ts.script with
+                | some e => handleException e (some suite) true
+                | none => pure ()
           if kept.any (· != .none_) then
             sop 0 (.setStep "Teardown test")
-            runTeardownFuncs P svs loc kept
+            runTeardownFuncs P svs loc (some suite) kept
           sop 0 (.endTest t.path)
           return (if (← isOk loc) then .success else .failure, [])
 
 /-- run one task from scratch on worker `w` -/
 def runTask (P : Proj) (insts : Insts) (w : Nat) (t : TaskId) (run : Bool) (reason : Bool) (kept : List Td)
-    (cut : Option Nat) : TaskOut :=
+    (cut : Option Nat) (failLookupsFrom : Option Nat := none) : TaskOut :=
   let svs := allSuites P
   let ts0 : TS := { sess := Session.St.init, out := #[], acts := 0, cut := cut, nextChild := 1, insts := insts,
-                    abortedSuites := [], abortAll := false, err := none }
+                    abortedSuites := [], abortAll := false, err := none, ptLog := [], failLookupsFrom := failLookupsFrom }
   let ((res, kept'), ts) := (taskProgram P svs w t run reason kept).run ts0
   { items := ts.out.toList, res := res,
     eff := { insts := ts.insts, kept := kept', abortedSuites := ts.abortedSuites, abortAll := ts.abortAll,
              failed := !ts.sess.failures.isEmpty },
-    err := ts.err }
+    err := ts.err, ptLog := ts.ptLog }
 
 end LccModel.Run
